@@ -8,7 +8,7 @@ COQ_FILES = ["Props/C10.v", "Obl/DispatchOk.v", "Obl/EnumsOk.v"]
 
 
 def correspondence(ctx):
-    n = 400 if ctx.tier == "thorough" else 50
+    n = 400 if ctx.tier == "thorough" else 52
     CC.run_sessions(ctx, "C10", n, lambda rng: dict(n_events=rng.choice([30,50]), burst=0.4, fault=0.3, bad=0.05), lambda rng: dict(required=rng.choice([1,2,2,3])))
 
 
